@@ -116,6 +116,9 @@ if __name__ == "__main__":
     elif cmd == "import2":
         for pid in sys.argv[2:]:
             do_import(pid, ("C", "D"))
+    elif cmd == "import3":
+        for pid in sys.argv[2:]:
+            do_import(pid, ("E", "F"))
     elif cmd == "eval":
         ids = sys.argv[2:] or sorted(os.path.basename(os.path.dirname(m)) for m in glob.glob(f"{SEEDED}/*/meta.json"))
         do_eval(ids)
